@@ -42,6 +42,11 @@ CLAIMS = {
          "For generated valid encodings of all 33 parser kinds every proper prefix (all for encodings <= 300 bytes; first 300 + span boundaries + 50 sampled beyond) must make ReadFrom report ErrNotEnoughBytes - never success, another error or a panic - and parsing the complete bytes afterwards from the restored position must equal a direct parse; at channel level a prefix packet followed by the remainder must deliver the package exactly once and queue no error.",
          "Only valid encodings are truncated (hostile bytes are C10's subject); KEY over types with 0/1-byte length prefix.",
          "DESIGN.md section 3, C07"),
+ "C11": ("exploration",
+         "rapid histories of responses with interleaved EED/ENVCHANGE packages x packetisations x hook registrations x consumer modes against one global event log; exhaustive single cuts of a special-package-heavy response",
+         "Responses with 0..6 messages and 0..3 environment changes are delivered under every kind of packetisation (special packages get parsed, rolled back and re-parsed) with hooks registered before or between responses; the event log must show every hook called exactly once per non-informational message / member, with equal contents, in arrival and registration order and before later packages reach the consumer; informational messages and environment changes are never delivered; PacketSize() follows the last PACKSIZE member; a failing callback's error matches the callback error and carries the messages that preceded the failure.",
+         "'Messages received so far' = delivered before the failing package; hooks are not registered while a response is in flight; packet level (single goroutine).",
+         "DESIGN.md section 3, C11"),
  "C15": ("exploration",
          "rapid model-based operation sequences (rx and tx usage) against a flat byte-slice / packet-layout model + exhaustive enumeration of all short sequences over a tiny packet size",
          "Operation sequences over the exported PacketQueue API are compared step by step with a flat byte model (bytes out = bytes in, in order; short read = ErrNotEnoughBytes; restore re-reads; discard is invisible) and a layout model for writes (Position after every write); all sequences up to length 5/6 (quick) and 7/8 (thorough) over small alphabets are enumerated completely.",
